@@ -104,6 +104,16 @@ pub fn check(case: &Case, obs: &Obs) -> CheckResult {
             }
         }
     }
+    // a foreign formatter that wraps a buffer sees the framing protocol: message_start once and before any
+    // output, one response_unit per executed query, message_end once iff something was written - and
+    // ends up with the same bytes
+    if want.len() <= 4096 {
+        let (res, buf, starts, units, ends, len_at_start) = crate::props::c05::control_call_counts(&r.bytes, &case.plans);
+        ensure!(res.is_ok() && buf == want, "framing-foreign-formatter", "{txt:?}: through a wrapping formatter: {:?}, {:?}; expected {:?}", res.map_err(|e| e.get_code()), escape(&buf), escape(&want));
+        ensure!(starts == 1 && len_at_start == 0, "formatter-protocol", "{txt:?}: message_start was called {starts} times (buffer held {len_at_start} bytes at the last call)");
+        ensure!(units == queries, "formatter-protocol", "{txt:?}: response_unit was called {units} times for {queries} query units");
+        ensure!(ends == (!want.is_empty()) as usize, "formatter-protocol", "{txt:?}: message_end was called {ends} times for a response of {} bytes", want.len());
+    }
     Ok(())
 }
 
